@@ -10,6 +10,7 @@ import (
 	"crypto/sha256"
 	"encoding/json"
 	"fmt"
+	"golang.org/x/sys/unix"
 	"os"
 	"path/filepath"
 	"sort"
@@ -106,6 +107,15 @@ func listing(dir string) []fileInfo {
 			info, err := ent.Info()
 			if err != nil {
 				continue
+			}
+			if info.Mode()&os.ModeSymlink != 0 {
+				// an entry behind a symbolic link: its age is the age of the file it
+				// names (that is what lookups and stores refresh)
+				ti, err := os.Stat(filepath.Join(dir, r))
+				if err != nil {
+					continue
+				}
+				info = ti
 			}
 			data, _ := os.ReadFile(filepath.Join(dir, r))
 			out = append(out, fileInfo{r, string(data), info.ModTime()})
@@ -459,7 +469,21 @@ type popFile struct {
 	Age  int `json:"age"` // index into ages
 }
 
-var popKinds = []string{"00/<hexA>-a", "00/<hexB>-d", "00/README", "00/x-b", "00/hex-a.tmp", "README", "fuzz/f-a", "zz-a", "00/sub/k-a"}
+var popKinds = []string{"00/<hexA>-a", "00/<hexB>-d", "00/README", "00/x-b", "00/hex-a.tmp", "README", "fuzz/f-a", "zz-a", "00/sub/k-a", "00/<hexC>-a (symbolic link, itself 30 days old, to a file outside the entry directories)", "00/<hexD>-d (symbolic link, likewise)"}
+
+// linkTarget: kinds 9 and 10 are entries relocated to a store and linked back.
+// Lookups and stores refresh the file the link points to, so that file's age is
+// the entry's age; the link itself is always 30 days old.
+func linkTarget(kind int) string {
+	switch kind {
+	case 9:
+		return "store/c-index"
+	case 10:
+		return "store/d-output"
+	}
+	return ""
+}
+
 var ages = append(append([]time.Duration{}, deltas...), -2*hour)
 
 func popPath(kind int) string {
@@ -480,6 +504,10 @@ func popPath(kind int) string {
 		return "fuzz/f-a"
 	case 7:
 		return "zz-a"
+	case 9:
+		return "00/" + strings.Repeat("0c", 32) + "-a"
+	case 10:
+		return "00/" + strings.Repeat("0d", 32) + "-d"
 	default:
 		return "00/sub/k-a"
 	}
@@ -531,8 +559,23 @@ func (w *worker) runPop(p popCase) string {
 	for _, f := range p.Files {
 		path := filepath.Join(e.dir, popPath(f.Kind))
 		os.MkdirAll(filepath.Dir(path), 0o777)
-		os.WriteFile(path, []byte("data\n"), 0o666)
 		mt := e.clk.Add(-ages[f.Age])
+		if t := linkTarget(f.Kind); t != "" {
+			target := filepath.Join(e.dir, t)
+			os.MkdirAll(filepath.Dir(target), 0o777)
+			os.WriteFile(target, []byte("data\n"), 0o666)
+			os.Chtimes(target, mt, mt)
+			os.Remove(path)
+			if err := os.Symlink(target, path); err != nil {
+				kit.Harness("symlink: %v", err)
+			}
+			old := unix.NsecToTimeval(e.clk.Add(-30 * day).UnixNano())
+			if err := unix.Lutimes(path, []unix.Timeval{old, old}); err != nil {
+				kit.Harness("lutimes: %v", err)
+			}
+			continue
+		}
+		os.WriteFile(path, []byte("data\n"), 0o666)
 		os.Chtimes(path, mt, mt)
 	}
 	if s, ok := trimRecContent(p.Trim, e.clk); ok {
